@@ -67,6 +67,20 @@ fn p_cvec_view_reserve_partial() {
     kani::cover!(true, "reaches end");
 }
 #[kani::proof]
+#[kani::unwind(4)]
+fn p_cvec_view_emptied_release() {
+    // a vector the C caller has emptied still owns its buffer: view.drop(data, 0, capacity) frees it
+    let mut v: Vec<u64> = Vec::with_capacity(4);
+    v.push(kani::any());
+    let cv = CVec::from(v);
+    let mut view: VecView<u64> = unsafe { core::mem::transmute_copy(&cv) };
+    core::mem::forget(cv);
+    view.len -= 1; // the caller consumed the element
+    assert!(view.len == 0 && view.capacity == 4);
+    unsafe { (view.drop.unwrap())(view.data, view.len, view.capacity) };
+    kani::cover!(true, "reaches end"); // the harness-end leak obligation checks the buffer is gone
+}
+#[kani::proof]
 fn p_cvec_view_u8() {
     let x: u8 = kani::any();
     let mut v: Vec<u8> = Vec::with_capacity(3);
